@@ -803,6 +803,29 @@ def corpus_docs():
     return docs
 
 
+def table_directed_docs():
+    """documents aimed at every entry of the live table that the table condition rejects: unsafe
+    exact entries, python/* keys, plugin closures that are no entry point, multi-constructor prefixes"""
+    d = _DUMPS.get("cobald_tables_test") or {}
+    if "exact" not in d:
+        return []
+    eps = {(t, i) for t, i in d.get("entrypoints", [])}
+    tags = []
+    for t, c in d["exact"]:
+        if c[0] == "X" or t.startswith(PYTAG) or (c[0] == "P" and (t, c[1]) not in eps):
+            tags.append(t)
+    for p, _n in d["multi"]:
+        tags.append(p + "c18probe")
+    out = []
+    for t in tags:
+        if any(ch in t for ch in " <>\n"):
+            continue
+        for body, shape in (("{}", "map"), ("[c18arg]", "seq"), ("''", "scalar")):
+            out.append({"kind": "doc", "role": "reject", "position": "lazy_arg", "pykind": "table-entry",
+                        "target": t, "shape": shape, "text": "pipeline:\n  - !C18Lazy {a: !<%s> %s}\n" % (t, body)})
+    return out
+
+
 # ======================================================================================
 # random tables x random documents (model validation against PyYAML itself)
 # ======================================================================================
@@ -1041,7 +1064,7 @@ def run_table(case):
 # run_pure API
 # ======================================================================================
 def gen_cases(rng, n):
-    docs = corpus_docs()
+    docs = corpus_docs() + table_directed_docs()
     tables = list(TABLE_CORPUS)
     n_rand = max(0, n - len(docs) - len(tables))
     for _ in range(n_rand):
